@@ -64,7 +64,7 @@ inductive HF | ok | exc | base
 
 inductive Exc
   | usage | duplicate | unknownName | invalidOp | delivery | value | taskInit | taskRun
-  | unknownRpc | os | connRefused | assertion | noActive | boom | base
+  | unknownRpc | os | connRefused | assertion | noActive | boom | base | logging
   deriving DecidableEq, Repr
 
 inductive Out | ok | exc (e : Exc) | hang
@@ -446,14 +446,16 @@ def qstartFailed (p : Proc) (c : Ctx) (o : Out) : Proc × Out :=
   | (d, e) => ({ single := none, dropped := p.dropped ++ [d] }, e)
 
 /-- `qmi.start(name, context_cfg=…)` -/
-def qstart (p : Proc) (validName cfgTcp tcpF udpF : Bool) (peers : List Bool) : Proc × Out :=
+def qstart (p : Proc) (validName cfgTcp tcpF udpF : Bool) (peers : List Bool) (logF : Bool) : Proc × Out :=
   match p.single with
   | some _ => (p, .exc .usage)
   | none =>
     if !validName then (p, .exc .usage)           -- `QMI_Context(...)` raises before the global is assigned
     else
       let c := Ctx.init cfgTcp                      -- `_qmi_context = QMI_Context(...)`
-      match start c tcpF udpF with
+      -- first step inside the `try`: `_init_logging()` (log directory cannot be created, unknown level name, …)
+      if logF then qstartFailed p c (.exc .logging)
+      else match start c tcpF udpF with
       | (c1, .ok) =>
         match connectPeers c1 peers 0 with
         | (c2, .ok) => ({ p with single := some c2 }, .ok)
@@ -470,7 +472,7 @@ def qstop (p : Proc) : Proc × Out :=
     | (c1, o) => ({ p with single := some c1 }, o)
 
 inductive POp
-  | qstart (validName cfgTcp tcpF udpF : Bool) (peers : List Bool)
+  | qstart (validName cfgTcp tcpF udpF : Bool) (peers : List Bool) (logF : Bool)
   | qstop
   | qcontext
   | op (o : Op)                                    -- `qmi.make_rpc_object`, `qmi.get_task`, … and `qmi.context().…`
@@ -480,7 +482,7 @@ inductive POp
 def Proc.clr (p : Proc) : Proc := { p with single := p.single.map (fun c => { c with log := [] }) }
 
 def pstep' (p : Proc) : POp → Proc × Out
-  | .qstart v t tf uf peers => qstart p v t tf uf peers
+  | .qstart v t tf uf peers lf => qstart p v t tf uf peers lf
   | .qstop => qstop p
   | .qcontext => (p, match p.single with | some _ => .ok | none => .exc .noActive)
   | .op o =>
